@@ -274,6 +274,7 @@ package statf
 //@   site ).Write#8 assert [C03] $2 == 5
 //@   site ).Write#9 assert [C03] $2 == 6
 //@   sites ).Write = 10
+//@   site ).Write#4 assert [C03] $1 == s32(len(st.IntervalCount))
 //@   site ).Write#5 assert [C03] $1 == k1
 //@   site ).Write#6 assert [C03] $1 == v1
 //
